@@ -136,10 +136,9 @@ class ProvXMLSerializer(Serializer):
                 )
                 if isinstance(value, prov.model.Literal):
                     if value.datatype not in [None, PROV["InternationalizedString"]]:
-                        subelem.attrib[_ns_xsi("type")] = "%s:%s" % (
-                            value.datatype.namespace.prefix,
-                            value.datatype.localpart,
-                        )
+                        # str() of a qualified name omits the prefix (and the
+                        # colon) of a name in the default namespace
+                        subelem.attrib[_ns_xsi("type")] = str(value.datatype)
                     if value.langtag is not None:
                         subelem.attrib[_ns_xml("lang")] = value.langtag
                     v = value.value
